@@ -185,11 +185,14 @@ def Db.create (ops : FOps) (s : Schema) (db : Db) (x : Snap) : Db × Res Nat :=
   | .throw e => (db, .throw e)
   | .ub u => (db, .ub u)
 
-/-- `track::update(snapshot)` -/
+/-- `track::update(snapshot)`: `snapshot_to_row`, the whole-row UPDATE, and (since `fix:` 8862536) the test of
+`rows_modified()` — a track that is not there: `track_deleted`, whatever path the snapshot names (an UPDATE
+that matches no row meets no constraint). -/
 def Db.update (ops : FOps) (s : Schema) (db : Db) (id : Nat) (x : Snap) : Db × Res Unit :=
   match writeStore ops s x with
   | .ok r =>
-    if db.pathTaken id r.path then (db, .throw .sqlite_error) else (db.put id r, .ok ())
+    if (db.get id).isNone then (db, .throw (.dj "track_deleted"))
+    else if db.pathTaken id r.path then (db, .throw .sqlite_error) else (db.put id r, .ok ())
   | .throw e => (db, .throw e)
   | .ub u => (db, .ub u)
 
